@@ -69,8 +69,9 @@ _BASE_CP = {}
 
 
 def base_cps(name):
+    """analytic critical points of the unshifted family (computed once per process)"""
     if name not in _BASE_CP:
-        _BASE_CP[name] = fams.Fam(name).critical_points()
+        _BASE_CP[name] = fams.Fam(name).critical_points(nstart=(31, 61))
     return _BASE_CP[name]
 
 
@@ -91,7 +92,7 @@ def fc_task(task):
     R1, Z1 = np.linspace(Rmin, Rmax, nR), np.linspace(Zmin, Zmax, nZ)
     dR, dZ = R1[1] - R1[0], Z1[1] - Z1[0]
     R2, Z2 = np.meshgrid(R1, Z1, indexing="ij")
-    cps0 = task["cps"]
+    cps0 = base_cps(name)
     viol, st = [], dict(cases=0, points=0, order_skipped=0, worst_pos=0.0, worst_res=0.0, worst_psi=0.0,
                         worst_pos_cells_tight=0.0, sample=None)
     for sg in task["signs"]:
@@ -118,7 +119,7 @@ def fc_task(task):
                 if st["sample"] is None and sa == 0.25:
                     st["sample"] = dict(case, opoints=[list(map(float, o)) for o in op],
                                         xpoints=[list(map(float, x)) for x in xp])
-    return dict(task={k: v for k, v in task.items() if k != "cps"}, viol=viol, stats=st)
+    return dict(task=task, viol=viol, stats=st)
 
 
 def _judge_fc(case, fam, ref, exp, op, xp, cell, dom, viol, st):
@@ -287,8 +288,10 @@ def eq_task(task):
     s = np.linspace(0.0, 1.0, 33)
     psi1 = pax + s * (xr[0][2] - pax)
     viol, st = [], dict(cases=0, refused=0, single=0, double=0, none=0, legs=0, worst_strike=0.0,
-                        worst_xpos=0.0, sample=None)
+                        worst_xpos=0.0, sample=None, legs_skipped_xpoint_at_wall=0)
     for wname in task["walls"]:
+        if wname.startswith("Wx") and len(xr) < 2:
+            continue  # these walls cut next to the *second* X-point
         wall = _wall(wname, xr)
         inside = [_point_in_polygon((x[0], x[1]), wall) for x in xr]
         for sol in task.get("sols") or eq_ladder(psin[1] if len(psin) > 1 else None):
@@ -372,8 +375,24 @@ def _wall_roots(ref, wall, level):
 STRIKE_TOL = 1e-3
 
 
+def _dist_to_wall(pt, wall):
+    d = np.inf
+    p = np.array(pt[:2])
+    for k in range(len(wall)):
+        a, b = np.array(wall[k]), np.array(wall[(k + 1) % len(wall)])
+        t = np.clip(np.dot(p - a, b - a) / np.dot(b - a, b - a), 0.0, 1.0)
+        d = min(d, float(np.hypot(*(p - a - t * (b - a)))))
+    return d
+
+
 def _judge_legs(eq, ref, wall, xkept, ro, add, st):
     for x in xkept:
+        if _dist_to_wall(x, wall) < 0.03:
+            # findLegs starts the legs on a circle of radius 0.01 m about the X-point: an
+            # X-point this close to the wall has no legs to speak of (walls Wx+-); only the
+            # topology decision is judged there
+            st["legs_skipped_xpoint_at_wall"] = st.get("legs_skipped_xpoint_at_wall", 0) + 1
+            continue
         side = "lower" if x[1] < ro[1] else "upper"
         names = {"inner": "inner_%s_divertor" % side, "outer": "outer_%s_divertor" % side}
         if any(nm not in eq.regions for nm in names.values()):
@@ -474,8 +493,7 @@ def tasks_for(tier, seed):
         for res in resolutions(tier):
             if min(res) < fams.MIN_POINTS.get(name, 0):
                 continue
-            A.append(dict(kind="fc", family=name, res=list(res), shifts=sh, signs=[1.0, -1.0], atols=ATOLS,
-                          cps=base_cps(name)))
+            A.append(dict(kind="fc", family=name, res=list(res), shifts=sh, signs=[1.0, -1.0], atols=ATOLS))
     B = []
     eq_res = [(65, 65)] if tier == "quick" else [(65, 65), (33, 65), (129, 129)]
     walls = ["W0", "W4", "Wx+", "Wx-"]
@@ -513,7 +531,7 @@ def run(ctx, only=None):
             results = list(ex.map(_work, tasks, chunksize=1))
     else:
         results = [_work(t) for t in tasks]
-    tot = dict(fc=dict(cases=0, points=0, order_skipped=0), eq=dict(cases=0, refused=0, single=0, double=0, none=0, legs=0),
+    tot = dict(fc=dict(cases=0, points=0, order_skipped=0), eq=dict(cases=0, refused=0, single=0, double=0, none=0, legs=0, legs_skipped_xpoint_at_wall=0),
                sp=dict(cases=0, refused=0))
     for r in results:
         kind = r["task"]["kind"]
@@ -559,6 +577,7 @@ def run(ctx, only=None):
     ctx.set("eq_expected_no_xpoint", tot["eq"]["none"])
     ctx.set("eq_refused_after_decision", tot["eq"]["refused"])
     ctx.set("legs_judged", tot["eq"]["legs"])
+    ctx.set("legs_skipped_xpoint_at_wall", tot["eq"]["legs_skipped_xpoint_at_wall"])
     ctx.set("saddle_calls", tot["sp"]["cases"])
     ctx.set("saddle_refused", tot["sp"]["refused"])
     ctx.assume("X-points hidden behind another O-point (psi not monotonic from the primary O-point) are outside "
@@ -570,8 +589,7 @@ def replay(ctx, payload):
     t = dict(p["task"])
     c = p["case"]
     if t["kind"] == "fc":
-        t.update(shifts=[tuple(c["shift"])], signs=[c["sign"]], atols=[(c["atol"], c["maxits"])],
-                 cps=base_cps(t["family"]))
+        t.update(shifts=[tuple(c["shift"])], signs=[c["sign"]], atols=[(c["atol"], c["maxits"])])
     elif t["kind"] == "eq":
         t.update(walls=[c["wall"]], sols=[c["psinorm_sol"]])
     else:
